@@ -77,7 +77,7 @@ impl Check for C13 {
 
     fn runs(&self, tier: Tier) -> u64 {
         match tier {
-            Tier::Quick => 12_000,
+            Tier::Quick => 50_000,
             Tier::Thorough => 400_000,
         }
     }
